@@ -270,6 +270,41 @@ func c17Property(t *rapid.T, st *Stats) {
 	if exhaustive {
 		st.Add("layouts-with-all-crash-points", 1)
 	}
+	// an I/O error instead of a crash: the k-th mutating call fails, the process lives on with whatever it made of
+	// that, is closed, and a new process opens the directory - the interrupted conversion is repeated there
+	for _, k := range points {
+		rk := filepath.Join(tmp, fmt.Sprintf("fault-%d", k))
+		copyTree(pristine, rk)
+		lk := *l
+		lk.root, lk.dir = rk, filepath.Join(rk, "r")
+		vfs.Reset(rk, false)
+		vfs.FailAt(k)
+		sk := olareg.New(c17Conf(config.StoreDir, rk))
+		if !withWatchdog(30*time.Second, func() { _, _ = c17Observe(sk, &lk) }) {
+			vfs.Kill(rk)
+			fail("conversion-hangs", "first open with an I/O error injected at mutating call %d did not finish", k)
+		}
+		if !withWatchdog(30*time.Second, func() { _ = sk.Close() }) {
+			vfs.Kill(rk)
+			fail("close-hangs", "Close after a conversion with an I/O error at mutating call %d did not return", k)
+		}
+		vfs.Reset(rk, false)
+		sa := olareg.New(c17Conf(config.StoreDir, rk))
+		var obsA, probA string
+		if !withWatchdog(30*time.Second, func() { obsA, probA = c17Observe(sa, &lk) }) {
+			vfs.Kill(rk)
+			fail("conversion-hangs", "repeating the conversion after an I/O error at call %d did not finish", k)
+		}
+		_ = sa.Close()
+		if probA != "" {
+			fail("fault-repeat-result", "I/O error at mutating call %d of %d during the conversion, Close, then re-open: %s", k, nMut, probA)
+		}
+		if obsA != obs1 {
+			fail("fault-repeat-differs", "I/O error at call %d, Close, then re-open gives other answers:\n--- uninterrupted\n%s--- after the error\n%s", k, obs1, obsA)
+		}
+		st.Add("fault-points-checked", 1)
+		_ = os.RemoveAll(rk)
+	}
 	for _, k := range points {
 		for _, mode := range []int{vfs.ModeBefore, vfs.ModeAfter, vfs.ModeTorn} {
 			rk := filepath.Join(tmp, fmt.Sprintf("crash-%d-%d", k, mode))
